@@ -231,6 +231,8 @@ pub struct Machine {
     global_states: StateStorage,
     states_stack: StateStorageStack,
     delaysizes_pos_stack: Vec<usize>,
+    /// For each function, the position in its `delay_sizes` of the delay at each code position.
+    delay_size_index: Vec<Vec<u32>>,
     global_vals: Vec<RawVal>,
     debug_stacktype: Vec<RawValType>,
     current_ext_call_nargs: u8,
@@ -430,6 +432,7 @@ impl Machine {
             global_states: Default::default(),
             states_stack: Default::default(),
             delaysizes_pos_stack: vec![0],
+            delay_size_index: vec![],
             global_vals: vec![],
             debug_stacktype: vec![RawValType::Int; 255],
             current_ext_call_nargs: 0,
@@ -461,6 +464,7 @@ impl Machine {
             global_states: Default::default(),
             states_stack: Default::default(),
             delaysizes_pos_stack: vec![0],
+            delay_size_index: vec![],
             global_vals: vec![],
             debug_stacktype: vec![RawValType::Int; 255],
             current_ext_call_nargs: 0,
@@ -891,8 +895,6 @@ impl Machine {
         let mut local_heap_closures: Vec<heap::HeapIdx> = vec![];
         let mut upv_map = LocalUpValueMap::default();
         let mut pcounter = 0;
-        // position in `delay_sizes` of the next delay executed by this activation
-        let mut delaysize_i = 0;
         // if cfg!(test) {
         //     log::trace!("{:?}", func);
         // }
@@ -1368,13 +1370,8 @@ impl Machine {
                     let i = self.get_stack(src as i64);
                     let t = self.get_stack(time as i64);
                     // `delay_sizes` has one entry per delay of this function, in code order
-                    let size_in_samples = unsafe {
-                        *self
-                            .get_fnproto(func_i)
-                            .delay_sizes
-                            .get_unchecked(delaysize_i)
-                    };
-                    delaysize_i += 1;
+                    let delaysize_i = self.delay_size_index[func_i][pcounter] as usize;
+                    let size_in_samples = self.get_fnproto(func_i).delay_sizes[delaysize_i];
                     let mut ringbuf = self.get_current_state().get_as_ringbuffer(size_in_samples);
 
                     let res = ringbuf.process(i, t);
@@ -1425,6 +1422,24 @@ impl Machine {
     }
 
     fn link_functions(&mut self) {
+        self.delay_size_index = self
+            .prog
+            .global_fn_table
+            .iter()
+            .map(|(_, f)| {
+                let mut n_delays = 0;
+                f.bytecodes
+                    .iter()
+                    .map(|inst| {
+                        let i = n_delays;
+                        if matches!(inst, Instruction::Delay(..)) {
+                            n_delays += 1;
+                        }
+                        i
+                    })
+                    .collect()
+            })
+            .collect();
         //link external functions
         let global_mem_size = self
             .prog
